@@ -268,6 +268,9 @@ Qed.
 Lemma kind_eq_dec_KZ3 (k : kind) : {k = KZ3} + {k <> KZ3}.
 Proof. destruct k; (left; reflexivity) || (right; discriminate). Qed.
 
+Lemma kind_eq_dec_K_D (k : kind) : {k = K_D} + {k <> K_D}.
+Proof. destruct k; (left; reflexivity) || (right; discriminate). Qed.
+
 Lemma render_in_tvals l c t : civil_ok l c -> In (render_tok t c) (tvals t).
 Proof.
   intros Hc. destruct t as [k i|b|n]; cbn [render_tok tvals]; [|left; reflexivity|left; reflexivity].
@@ -354,11 +357,12 @@ Proof.
     + assert (Er : render_tok (TK k i) c = rv k (cv k c)) by (destruct k; try reflexivity; congruence).
       pose proof (cv_range l c k Hc Hk) as Hv.
       assert (Eu : upd_tok (TK k i) c s = upd_kind k (cv k c) [] s) by (destruct k; try reflexivity; congruence).
-      rewrite Eu, Er. destruct pre; cbn [spre].
-      * destruct k; try (rewrite <- Er; rewrite (nosp_head l c (TK _ i)); try assumption; try (intros; discriminate); rewrite Er; eapply pe_kind; eassumption).
-        (* the blank-padded day *)
-        cbn [elem_of_tok elem_of_kind upd_kind]. cbn [vlo vn Z.of_nat] in Hv. eapply pe_underD_cut; [lia|exact Hl|exact Hh].
-      * cbn [elem_of_tok]. eapply pe_kind; eassumption.
+      rewrite Eu. destruct pre; cbn [spre]; [|rewrite Er; cbn [elem_of_tok]; eapply pe_kind; eassumption].
+      destruct (kind_eq_dec_K_D k) as [->|Hd].
+      * (* the blank-padded day *)
+        rewrite Er. cbn [elem_of_tok elem_of_kind upd_kind]. cbn [vlo vn Z.of_nat] in Hv. eapply pe_underD_cut; [lia|exact Hl|exact Hh].
+      * rewrite (nosp_head l c (TK k i) Hc Hn); [|intros i0 E0; injection E0 as E0; contradiction|intros; discriminate].
+        rewrite Er. cbn [elem_of_tok]. eapply pe_kind; eassumption.
   - assert (E : spre pre (render_tok (TL b) c ++ r) = b :: r).
     { destruct pre; [|reflexivity]. apply (nosp_head l c (TL b)); try assumption; intros; discriminate. }
     rewrite E. cbn [elem_of_tok parse_elem]. rewrite byte_eqb_refl. reflexivity.
@@ -387,4 +391,278 @@ Proof.
       change (x20 :: repeat x20 n ++ render_toks tl c) with (repeat x20 (S n) ++ render_toks tl c).
       rewrite cut_sp_repeat. cbn [upd_toks fold_left upd_tok].
       apply (IH true). exact Hok'. intros _. destruct tl as [|[| |] ?]; try exact I. discriminate.
+Qed.
+
+(* ------------------------------------------------------------------ the regexp on the text of the tokens *)
+
+Lemma atoms_of_toks_cons terms t tl a : atoms_of_toks terms (t :: tl) = Some a ->
+  exists at_ ar, atoms_of_tok terms t = Some at_ /\ atoms_of_toks terms tl = Some ar /\ a = at_ ++ ar.
+Proof.
+  cbn [atoms_of_toks]. destruct (atoms_of_tok terms t) as [x|]; [|discriminate].
+  destruct (atoms_of_toks terms tl) as [y|]; [|discriminate]. intros H. injection H as <-. eauto.
+Qed.
+
+Lemma sep_next_out cs rest : sep_ok rest -> (forall c, In c cs -> no_byte (cls_has c) seps = true) -> next_out cs rest.
+Proof.
+  intros [->|(b & r & -> & Hb)] H; [exact I|]. cbn. intros c Hc. specialize (H c Hc).
+  unfold no_byte in H. rewrite forallb_forall in H. apply negb_true_iff. apply H. exact Hb.
+Qed.
+
+Lemma rx_toks terms l0 c : civil_ok l0 c -> forall l a rest, toks_ok terms l = true -> atoms_of_toks terms l = Some a ->
+  sep_ok rest -> exists cs, dmatchS a (render_toks l c ++ rest) = Some (rest, cs).
+Proof.
+  intros Hc. induction l as [|t tl IH]; intros a rest Hok Ha Hs.
+  - injection Ha as <-. eexists; reflexivity.
+  - destruct (toks_ok_cons _ _ _ Hok) as (a1 & Ha1 & Hrx & _ & _ & Hok').
+    destruct (atoms_of_toks_cons _ _ _ _ Ha) as (a1' & ar & Ha1' & Har & ->).
+    rewrite Ha1 in Ha1'. injection Ha1' as <-.
+    destruct (tok_rx_ok_spec _ _ _ _ Hrx (render_in_tvals l0 c t Hc)) as (_ & cs & Hd & Hcs).
+    destruct (IH ar rest Hok' Har Hs) as [cs2 H2].
+    cbn [render_toks flat_map]. change (flat_map (fun t => render_tok t c) tl) with (render_toks tl c).
+    rewrite <- app_assoc.
+    destruct (dm_ext a1 _ _ _ (render_toks tl c ++ rest) Hd) as [cs' H1].
+    { destruct tl as [|t' tl'].
+      - cbn [render_toks flat_map app]. apply sep_next_out; assumption.
+      - pose proof (head_next terms l0 c (t' :: tl') Hc Hok') as Hh.
+        cbn [next_firsts] in Hcs, Hh. destruct (render_toks (t' :: tl') c) as [|b w] eqn:E.
+        + (* cannot be empty, but harmless *) cbn [app].
+          destruct (toks_ok_cons _ _ _ Hok') as (a' & _ & Hrx' & _).
+          destruct (tok_rx_ok_spec _ _ _ _ Hrx' (render_in_tvals l0 c t' Hc)) as (Hne & _).
+          cbn [render_toks flat_map] in E. apply app_eq_nil in E as [E _]. congruence.
+        + cbn [app]. cbn in Hh. intros c0 Hc0. specialize (Hcs c0 Hc0).
+          unfold no_byte in Hcs. rewrite forallb_forall in Hcs. apply negb_true_iff. apply Hcs. exact Hh. }
+    cbn [app] in H1. eapply dm_app; eassumption.
+Qed.
+
+(* ------------------------------------------------------------------ decidable equalities *)
+
+Lemma list_eqb_sound {A} (eqb : A -> A -> bool) : (forall x y, eqb x y = true -> x = y) ->
+  forall a b, list_eqb eqb a b = true -> a = b.
+Proof.
+  intros E. induction a as [|x a IH]; intros [|y b] H; cbn in H; try discriminate; [reflexivity|].
+  apply andb_true_iff in H as [H1 H2]. f_equal; [apply E; exact H1|apply IH; exact H2].
+Qed.
+Lemma lelem_eqb_sound x y : lelem_eqb x y = true -> x = y.
+Proof. destruct x, y; cbn; intros H; try discriminate; try reflexivity. apply byte_eqb_eq in H. subst. reflexivity. Qed.
+Lemma cls_eqb_sound x y : cls_eqb x y = true -> x = y.
+Proof.
+  destruct x as [l|], y as [l'|]; cbn; intros H; try discriminate; [|reflexivity]. f_equal.
+  revert H. apply list_eqb_sound. intros [a b] [a' b'] H. cbn in H. apply andb_true_iff in H as [H1 H2].
+  apply N.eqb_eq in H1. apply N.eqb_eq in H2. subst. reflexivity.
+Qed.
+Lemma atom_eqb_sound x y : atom_eqb x y = true -> x = y.
+Proof.
+  destruct x as [c lo hi|al], y as [c' lo' hi'|al']; cbn; intros H; try discriminate.
+  - apply andb_true_iff in H as [H H3]. apply andb_true_iff in H as [H1 H2].
+    apply cls_eqb_sound in H1. apply Nat.eqb_eq in H2. subst.
+    destruct hi as [h|], hi' as [h'|]; cbn in H3; try discriminate; [apply Nat.eqb_eq in H3; subst|]; reflexivity.
+  - f_equal. revert H. apply list_eqb_sound. apply list_eqb_sound. intros [c n] [c' n'] H. cbn in H.
+    apply andb_true_iff in H as [H1 H2]. apply cls_eqb_sound in H1. apply Nat.eqb_eq in H2. subst. reflexivity.
+Qed.
+
+(* ------------------------------------------------------------------ the state after all tokens *)
+
+Definition tk (p : kind -> bool) (t : tok) : bool := match t with TK k _ => p k | _ => false end.
+
+Lemma has_kind_in p l k i : In (TK k i) l -> p k = true -> has_kind p l = true.
+Proof. intros Hin Hp. unfold has_kind. apply existsb_exists. exists (TK k i). split; assumption. Qed.
+Lemma has_kind_false p l k i : has_kind p l = false -> In (TK k i) l -> p k = false.
+Proof.
+  intros H Hin. destruct (p k) eqn:E; [|reflexivity]. rewrite (has_kind_in p l k i Hin E) in H. discriminate.
+Qed.
+
+Lemma fold_proj {A} (pr : pst -> A) (sets : tok -> bool) (val : A) c l :
+  (forall t s, In t l -> sets t = false -> pr (upd_tok t c s) = pr s) ->
+  (forall t s, In t l -> sets t = true -> pr (upd_tok t c s) = val) ->
+  forall s, pr (upd_toks l c s) = if existsb sets l then val else pr s.
+Proof.
+  induction l as [|t tl IH]; intros H1 H2 s; [reflexivity|].
+  cbn [upd_toks fold_left existsb]. change (fold_left (fun s t => upd_tok t c s) tl (upd_tok t c s)) with (upd_toks tl c (upd_tok t c s)).
+  rewrite IH.
+  - destruct (sets t) eqn:E; cbn [orb].
+    + destruct (existsb sets tl); [reflexivity|]. apply H2; [left; reflexivity|exact E].
+    + destruct (existsb sets tl); [reflexivity|]. apply H1; [left; reflexivity|exact E].
+  - intros t' s' Hin. apply H1. right. exact Hin.
+  - intros t' s' Hin. apply H2. right. exact Hin.
+Qed.
+
+Lemma existsb_and {A} (p : A -> bool) (b : bool) l : existsb (fun t => p t && b) l = existsb p l && b.
+Proof. induction l as [|x l IH]; cbn; [reflexivity|]. rewrite IH. destruct (p x), b, (existsb p l); reflexivity. Qed.
+
+Section FinalState.
+  Variables (l : list tok) (c : civil).
+  Hypothesis Hc : civil_ok l c.
+  Let S := upd_toks l c pst0.
+
+  Ltac by_kind := intros t s Hin Hs; destruct t as [k i| |]; [destruct k|..]; try discriminate Hs; try reflexivity;
+    try (cbn [upd_tok upd_kind cv]; match goal with |- context[if ?b then _ else _] => destruct b end; reflexivity).
+
+  Lemma fs_year : p_year S = if has_kind is_year l then c_y c else 0.
+  Proof.
+    unfold S. rewrite (fold_proj p_year (tk is_year) (c_y c)); [reflexivity| |].
+    - by_kind.
+    - by_kind. cbn [upd_tok upd_kind cv p_year set_year].
+      destruct Hc as (_ & _ & _ & _ & _ & _ & _ & _ & Hyy & _).
+      specialize (Hyy (has_kind_in is_yy l KYY i Hin eq_refl)).
+      destruct (69 <=? c_y c mod 100) eqn:E; lia.
+  Qed.
+  Lemma fs_month : p_month S = if has_kind is_month l then c_mo c else -1.
+  Proof. unfold S. rewrite (fold_proj p_month (tk is_month) (c_mo c)); [reflexivity| |]; by_kind. Qed.
+  Lemma fs_day : p_day S = if has_kind is_day l then c_d c else -1.
+  Proof. unfold S. rewrite (fold_proj p_day (tk is_day) (c_d c)); [reflexivity| |]; by_kind. Qed.
+  Lemma fs_min : p_min S = if has_kind is_min l then c_mi c else 0.
+  Proof. unfold S. rewrite (fold_proj p_min (tk is_min) (c_mi c)); [reflexivity| |]; by_kind. Qed.
+  Lemma fs_sec : p_sec S = if has_kind is_sec l then c_s c else 0.
+  Proof. unfold S. rewrite (fold_proj p_sec (tk is_sec) (c_s c)); [reflexivity| |]; by_kind. Qed.
+  Lemma fs_nsec : p_nsec S = if has_kind is_ms l then c_ms c * 1000000 else 0.
+  Proof. unfold S. rewrite (fold_proj p_nsec (tk is_ms) (c_ms c * 1000000)); [reflexivity| |]; by_kind. Qed.
+  Lemma fs_off : p_off S = if has_kind is_numzone l then Some (c_off c * 60) else None.
+  Proof. unfold S. rewrite (fold_proj p_off (tk is_numzone) (Some (c_off c * 60))); [reflexivity| |]; by_kind. Qed.
+
+  Lemma fs_hour24 : has_kind is_h12 l = false -> p_hour S = if has_kind is_h24 l then c_h c else 0.
+  Proof.
+    intros N. unfold S. rewrite (fold_proj p_hour (tk is_h24) (c_h c)); [reflexivity| |]; by_kind;
+    pose proof (has_kind_false is_h12 l _ i N Hin) as F; discriminate F.
+  Qed.
+  Lemma fs_hour12 : has_kind is_h24 l = false -> p_hour S = if has_kind is_h12 l then hour12 (c_h c) else 0.
+  Proof.
+    intros N. unfold S. rewrite (fold_proj p_hour (tk is_h12) (hour12 (c_h c))); [reflexivity| |]; by_kind;
+    pose proof (has_kind_false is_h24 l _ i N Hin) as F; discriminate F.
+  Qed.
+
+  Lemma fs_pm : p_pm S = has_kind is_ampm l && negb (c_h c <? 12).
+  Proof.
+    unfold S. rewrite (fold_proj p_pm (fun t => tk is_ampm t && negb (c_h c <? 12)) true).
+    - rewrite existsb_and. cbn [pst0 p_pm]. unfold has_kind. destruct (existsb _ l && negb (c_h c <? 12)); reflexivity.
+    - by_kind. cbn [tk is_ampm andb] in Hs. cbn [upd_tok upd_kind cv]. destruct (c_h c <? 12); [reflexivity|discriminate Hs].
+    - by_kind. cbn [tk is_ampm andb] in Hs. cbn [upd_tok upd_kind cv]. destruct (c_h c <? 12); [discriminate Hs|reflexivity].
+  Qed.
+  Lemma fs_am : p_am S = has_kind is_ampm l && (c_h c <? 12).
+  Proof.
+    unfold S. rewrite (fold_proj p_am (fun t => tk is_ampm t && (c_h c <? 12)) true).
+    - rewrite existsb_and. cbn [pst0 p_am]. unfold has_kind. destruct (existsb _ l && (c_h c <? 12)); reflexivity.
+    - by_kind. cbn [tk is_ampm andb] in Hs. cbn [upd_tok upd_kind cv]. destruct (c_h c <? 12); [discriminate Hs|reflexivity].
+    - by_kind. cbn [tk is_ampm andb] in Hs. cbn [upd_tok upd_kind cv]. destruct (c_h c <? 12); [reflexivity|discriminate Hs].
+  Qed.
+End FinalState.
+
+Section FinalState2.
+  Variables (l : list tok) (c : civil).
+  Hypothesis Hc : civil_ok l c.
+  Let S := upd_toks l c pst0.
+  Ltac by_kind2 := intros t s Hin Hs; destruct t as [k i| |]; [destruct k|..]; try discriminate Hs; try reflexivity;
+    try (cbn [upd_tok upd_kind cv]; match goal with |- context[if ?b then _ else _] => destruct b end; reflexivity).
+
+  Lemma fs_utc : p_utc S = has_kind is_abbr l && bytes_eqb (c_abbr c) (B "UTC").
+  Proof.
+    unfold S. rewrite (fold_proj p_utc (fun t => tk is_abbr t && bytes_eqb (c_abbr c) (B "UTC")) true).
+    - rewrite existsb_and. cbn [pst0 p_utc]. unfold has_kind. destruct (existsb _ l && bytes_eqb (c_abbr c) (B "UTC")); reflexivity.
+    - by_kind2. cbn [tk is_abbr andb] in Hs. cbn [upd_tok upd_kind cv]. rewrite Hs. reflexivity.
+    - by_kind2. cbn [tk is_abbr andb] in Hs. cbn [upd_tok upd_kind cv]. rewrite Hs. reflexivity.
+  Qed.
+  Lemma fs_zname : p_zname S = if has_kind is_abbr l && negb (bytes_eqb (c_abbr c) (B "UTC")) then c_abbr c else [].
+  Proof.
+    unfold S. rewrite (fold_proj p_zname (fun t => tk is_abbr t && negb (bytes_eqb (c_abbr c) (B "UTC"))) (c_abbr c)).
+    - rewrite existsb_and. reflexivity.
+    - by_kind2. cbn [tk is_abbr andb] in Hs. cbn [upd_tok upd_kind cv]. apply negb_false_iff in Hs. rewrite Hs. reflexivity.
+    - by_kind2. cbn [tk is_abbr andb] in Hs. cbn [upd_tok upd_kind cv]. apply negb_true_iff in Hs. rewrite Hs. reflexivity.
+  Qed.
+End FinalState2.
+
+Lemma hour_final h (h24 h12 ap : bool) : 0 <= h < 24 -> negb (h24 && h12) = true -> (negb ap || h24 || h12) = true ->
+  let ph := if h24 then h else if h12 then hour12 h else 0 in
+  let pm := ap && negb (h <? 12) in let am := ap && (h <? 12) in
+  (if pm && (ph <? 12) then ph + 12 else if am && (ph =? 12) then 0 else ph) =
+  (if h24 then h else if h12 then (if ap then h else hour12 h) else 0).
+Proof.
+  intros Hh H1 H2. cbv zeta. unfold hour12. cbv zeta.
+  destruct h24, h12, ap; cbn [andb orb negb] in *; try discriminate; try reflexivity;
+  destruct (h <? 12) eqn:E; cbn [andb negb]; try reflexivity;
+  destruct (h mod 12 =? 0) eqn:E2; try (destruct (12 <? 12) eqn:E3); try (destruct (12 =? 12) eqn:E4);
+  repeat (match goal with |- context[if ?b then _ else _] => destruct b eqn:? end); lia.
+Qed.
+
+Lemma zone_final l c : civil_ok l c ->
+  let utc := has_kind is_abbr l && bytes_eqb (c_abbr c) (B "UTC") in
+  let off := if has_kind is_numzone l then Some (c_off c * 60) else None in
+  let zn := if has_kind is_abbr l && negb (bytes_eqb (c_abbr c) (B "UTC")) then c_abbr c else [] in
+  (if utc then 0 else match off with
+                      | Some o => o
+                      | None => match starts (B "GMT") zn with
+                                | Some (c0 :: r) => match atoi (c0 :: r) with Some x => x * 3600 | None => 0 end
+                                | _ => 0
+                                end
+                      end) = (if has_kind is_numzone l then c_off c * 60 else 0).
+Proof.
+  intros (_ & _ & _ & _ & _ & _ & _ & Hz & _ & Hu). cbv zeta.
+  destruct (bytes_eqb (c_abbr c) (B "UTC")) eqn:E.
+  - apply bytes_eqb_eq in E. destruct (has_kind is_abbr l) eqn:A; cbn [andb negb].
+    + destruct (has_kind is_numzone l) eqn:Nz; [rewrite (Hu E eq_refl eq_refl)|]; reflexivity.
+    + destruct (has_kind is_numzone l); reflexivity.
+  - destruct (has_kind is_abbr l); cbn [andb negb]; destruct (has_kind is_numzone l); try reflexivity.
+    destruct Hz as [<-|[<-|[<-|[]]]]; try reflexivity; try discriminate E.
+Qed.
+
+Lemma finish_denotes l c cf now : civil_ok l c -> flags_ok cf l = true ->
+  exists t, finish (upd_toks l c pst0) = Some t /\ instant (adjust now cf t) = denotes now l c.
+Proof.
+  intros Hc Hf. pose proof Hc as (Hy & (Hm & Hd) & Hh & Hmi & Hs & Hms & Hoff & _).
+  unfold flags_ok in Hf. apply andb_true_iff in Hf as [Hf F4]. apply andb_true_iff in Hf as [Hf F3]. apply andb_true_iff in Hf as [F1 F2].
+  apply eqb_prop in F1. apply eqb_prop in F2.
+  (* hour *)
+  assert (PH : p_hour (upd_toks l c pst0) = if has_kind is_h24 l then c_h c else if has_kind is_h12 l then hour12 (c_h c) else 0).
+  { destruct (has_kind is_h24 l) eqn:A.
+    - destruct (has_kind is_h12 l) eqn:B0; [discriminate F3|]. rewrite (fs_hour24 l c B0), A. reflexivity.
+    - rewrite (fs_hour12 l c A). reflexivity. }
+  pose proof (hour_final (c_h c) _ _ _ Hh F3 F4) as HF. cbv zeta in HF.
+  pose proof (zone_final l c Hc) as ZF. cbv zeta in ZF.
+  pose proof (days_in_month_le_31 (c_y c) (c_mo c)) as D31.
+  pose proof (days_in_month_year0 (c_y c) (c_mo c)) as D0.
+  unfold finish.
+  rewrite fs_pm, fs_am, fs_utc, fs_off, fs_zname, PH, HF, ZF.
+  rewrite (fs_year l c Hc), fs_month, fs_day, fs_min, fs_sec, fs_nsec.
+  unfold denotes. destruct now as [[ny nm] nd].
+  destruct (has_kind is_year l) eqn:HY; destruct (has_kind is_month l) eqn:HM; destruct (has_kind is_day l) eqn:HD;
+  cbn [orb negb] in F2;
+  repeat match goal with |- context[if ?a <? ?b then _ else _] => first [is_var a; fail 1|destruct (a <? b) eqn:?; try lia] end;
+  cbn [orb];
+  match goal with |- context[if ?chk then None else _] =>
+    assert (chk = false) as -> by (try change (days_in_month (c_y c) 1) with 31; try change (days_in_month 0 1) with 31; lia)
+  end;
+  (eexists; split; [reflexivity|]);
+  unfold adjust, instant, unix_sec; rewrite F1, F2; cbn [negb t_y t_mo t_d t_h t_mi t_s t_ns t_off];
+  try rewrite Heqb; try rewrite Heqb0; try rewrite Heqb1; f_equal; destruct (has_kind is_ms l); reflexivity.
+Qed.
+
+(* ------------------------------------------------------------------ soundness of format_ok *)
+
+Theorem format_ok_sound terms f l cf : format_ok terms f = true -> tokens terms f = Some l -> compile_with terms f = Some cf ->
+  forall now c rest, civil_ok l c -> sep_ok rest ->
+  parse_one now cf (render_toks l c ++ rest) = Some (denotes now l c).
+Proof.
+  intros Hok Ht Hcf now c rest Hc Hs. unfold format_ok in Hok. rewrite Ht, Hcf in Hok.
+  destruct (atoms_of_toks terms l) as [a|] eqn:Ha.
+  2:{ apply andb_true_iff in Hok as [Hok _]. apply andb_true_iff in Hok as [Hok _]. apply andb_true_iff in Hok as [_ Hok]. discriminate. }
+  apply andb_true_iff in Hok as [Hok Hfl]. apply andb_true_iff in Hok as [Hok Htk]. apply andb_true_iff in Hok as [Hel Hrx].
+  apply (list_eqb_sound _ lelem_eqb_sound) in Hel. apply (list_eqb_sound _ atom_eqb_sound) in Hrx.
+  unfold parse_one. rewrite Hrx, Hel.
+  destruct (rx_toks terms l c Hc l a rest Htk Ha Hs) as [cs Hd].
+  rewrite (rx_find_head a _ (render_toks l c)); [|eapply m_at_of_dm; [exact Hd|reflexivity]].
+  unfold go_parse. pose proof (pe_toks terms l c Hc l false pst0 Htk ltac:(discriminate)) as Hp. cbn [spre] in Hp. rewrite Hp.
+  destruct (finish_denotes l c cf now Hc Hfl) as (t & Hf & Hi). rewrite Hf, Hi. reflexivity.
+Qed.
+
+(* the first format that parses wins: if no earlier format parses the text, the k-th format's answer is the list's *)
+Lemma parse_all_from_first now text : forall fs i k cf r,
+  nth_error fs k = Some (Some cf) ->
+  (forall j cfj, (j < k)%nat -> nth_error fs j = Some cfj -> exists cj, cfj = Some cj /\ parse_one now cj text = None) ->
+  parse_one now cf text = Some r -> parse_all_from i now fs text = Some ((i + k)%nat, r).
+Proof.
+  induction fs as [|o fs IH]; intros i k cf r Hk Hearlier Hr.
+  - destruct k; discriminate.
+  - destruct k as [|k].
+    + injection Hk as ->. cbn [parse_all_from]. rewrite Hr. rewrite Nat.add_0_r. reflexivity.
+    + destruct (Hearlier 0%nat o ltac:(lia) eq_refl) as (cj & -> & Hn). cbn [parse_all_from]. rewrite Hn.
+      rewrite (IH (S i) k cf r); [f_equal; f_equal; lia|exact Hk| |exact Hr].
+      intros j cfj Hj Hnth. apply (Hearlier (S j) cfj); [lia|exact Hnth].
 Qed.
